@@ -39,6 +39,18 @@ class FuncInfo(object):
         self.kwarg = node.args.kwarg.arg if node.args.kwarg else None
         self.vararg = node.args.vararg.arg if node.args.vararg else None
         self.defaults = node.args.defaults
+        decs = []
+        for d in node.decorator_list:
+            if isinstance(d, ast.Call):
+                d = d.func
+            if isinstance(d, ast.Name):
+                decs.append(d.id)
+            elif isinstance(d, ast.Attribute):
+                decs.append(d.attr)
+        self.decorators = decs
+        self.is_static = "staticmethod" in decs
+        self.is_classmethod = "classmethod" in decs
+        self.is_property = "property" in decs or "cached_property" in decs
 
     def __repr__(self):
         return "<Func %s:%s>" % (self.module, self.qualname)
@@ -157,6 +169,7 @@ class Repo(object):
                 self.setup_py = f.read()
             self.files_read.append("setup.py")
         self._schemas = {}
+        self.canonical_names = self._canonicalise()
         # class name -> (ModuleInfo, classdict); names are unique in this pkg
         self.classes = {}
         for m in self.modules.values():
@@ -164,6 +177,80 @@ class Repo(object):
                 if cn in self.classes:
                     raise AnalysisError("duplicate class name %s" % cn)
                 self.classes[cn] = (m, cd)
+
+    # -- canonical class names ---------------------------------------------------
+    def _canonicalise(self):
+        """Three classes no test pins by name are known to the analyser by the
+        part they play, not by what they are called; the parsed trees are
+        rewritten to the canonical names so that the rest of the analyser can
+        use them (positions are unchanged):
+          * the protocol class: what WebSocketServerFactory.protocol names
+            -> WebSocketServer
+          * the protocol error: what onMessage's answering `except` clause
+            catches -> Error
+          * the refusal of a re-claim: the exception the protocol class turns
+            into Error("reclaimed") -> ReclaimedError
+        Returns {source name: canonical name} for the names that differed."""
+        ren = {}
+        ws = self.modules.get("server_websocket")
+        if ws is None:
+            return ren
+        fac = ws.classes.get("WebSocketServerFactory")
+        proto = fac["attrs"].get("protocol") if fac else None
+        if not isinstance(proto, ast.Name) or proto.id not in ws.classes:
+            raise AnalysisError("anchor vanished: WebSocketServerFactory.protocol does "
+                                "not name a class of server_websocket.py")
+        if proto.id != "WebSocketServer":
+            ren[proto.id] = "WebSocketServer"
+        pcls = ws.classes[proto.id]
+        onmsg = pcls["methods"].get("onMessage")
+        err = None
+        if onmsg is not None:
+            for n in ast.walk(onmsg.node):
+                if isinstance(n, ast.ExceptHandler) and isinstance(n.type, ast.Name) and \
+                        n.type.id in ws.classes:
+                    err = n.type.id
+        if err is None:
+            raise AnalysisError("anchor vanished: onMessage has no `except <protocol "
+                                "error class>` clause")
+        if err != "Error":
+            ren[err] = "Error"
+        for meth in pcls["methods"].values():
+            for n in ast.walk(meth.node):
+                if isinstance(n, ast.ExceptHandler) and isinstance(n.type, ast.Name):
+                    for r in ast.walk(n):
+                        if isinstance(r, ast.Raise) and isinstance(r.exc, ast.Call) and \
+                                isinstance(r.exc.func, ast.Name) and r.exc.func.id == err and \
+                                r.exc.args and isinstance(r.exc.args[0], ast.Constant) and \
+                                r.exc.args[0].value == "reclaimed" and \
+                                n.type.id != "ReclaimedError":
+                            ren[n.type.id] = "ReclaimedError"
+        if not ren:
+            return ren
+        taken = set()
+        for m in self.modules.values():
+            taken.update(m.classes)
+            taken.update(m.functions)
+        for src, canon in ren.items():
+            if canon in taken:
+                raise AnalysisError("cannot canonicalise %s -> %s: the name is taken"
+                                    % (src, canon))
+        for name, m in list(self.modules.items()):
+            changed = False
+            for n in ast.walk(m.tree):
+                if isinstance(n, ast.Name) and n.id in ren:
+                    n.id = ren[n.id]
+                    changed = True
+                elif isinstance(n, ast.ClassDef) and n.name in ren:
+                    n.name = ren[n.name]
+                    changed = True
+                elif isinstance(n, ast.alias) and n.name in ren and n.asname is None:
+                    n.name = ren[n.name]
+                    changed = True
+            if changed:
+                m.functions, m.classes, m.imports, m.constants = {}, {}, {}, {}
+                m._index()
+        return ren
 
     # -- lookups ---------------------------------------------------------
     def module(self, name):
